@@ -340,15 +340,23 @@ def check_variable_units(check, rule="UNIT-HOMOG"):
             if name in UNIT_EXEMPT:
                 check.ok(rule, construct, "exempt: %s" % UNIT_EXEMPT[name], f.loc(), nontrivial=False)
                 continue
-            if name not in VAR_DIMS:
-                check.undecided(rule, construct, "UNCLASSIFIED: no dimension declared for variable %r" % name, f.loc())
-                continue
             ctx = UCtx(proj, key)
             q = ctx.state(ctx.cons_d)
             try:
                 v = ctx.call(f, q)
             except AnalysisError as e:
                 check.undecided(rule, construct, "units: %s" % e, f.loc())
+                continue
+            if name not in VAR_DIMS:
+                # a variable the statement does not name (added since): no expected dimension, but its expression must
+                # still be dimensionally homogeneous (only like quantities added or compared); its dimension is reported
+                errs = [e_ for e_ in getattr(ctx.dom, "errors", [])]
+                got = _flatten([v])
+                if errs:
+                    ln, text = errs[0]
+                    check.violation(rule, construct, "line %d: %s" % (ln, text), f.loc(), key="unit:" + text[:60])
+                else:
+                    check.ok(rule, construct, "variable not named by the statement: homogeneous expression of dimension %s" % ", ".join(sorted({show_dim(g.dim) for g in got})), f.loc(), nontrivial=False)
                 continue
             want = dict(VAR_DIMS[name])
             if key == "nozzle" and name == "massflow":
